@@ -472,11 +472,11 @@ pub fn owns(prop: &str, v: &Violation) -> bool {
         "C03" => starts(c, "inv/I2") || starts(c, "postpanic/dead-element") || starts(c, "postpanic/leaked-element") || starts(c, "ledger/") || starts(c, "alloc/leak") || starts(c, "alloc/double-free") || starts(c, "alloc/bad-free") || starts(c, "alloc/layout-mismatch") || starts(c, "alloc/size-mismatch") || starts(c, "cap/alloc-on-new"),
         "C04" => starts(c, "postpanic/") || safety || starts(c, "alloc/") || starts(c, "ledger/"),
         "C05" => safety || starts(c, "diverge/") || starts(c, "byz/") || starts(c, "ledger/") || starts(c, "alloc/") || starts(c, "getmany/alias") || starts(c, "panic/"),
-        "C06" => starts(c, "inv/I6") || functional || starts(c, "entry/") || starts(c, "iterhash/") || starts(c, "reinsert/") || starts(c, "retain/") || starts(c, "extract/") || starts(c, "drain/yield") || starts(c, "getmany/"),
+        "C06" => starts(c, "inv/I6") || functional || starts(c, "entry/") || starts(c, "iterhash/") || starts(c, "reinsert/") || starts(c, "retain/") || starts(c, "extract/") || starts(c, "drain/yield") || starts(c, "iterlen/") || starts(c, "getmany/"),
         "C07" => starts(c, "inv/I6") || functional || starts(c, "setalg/") || starts(c, "set/") || starts(c, "entry/"),
         "C08" => starts(c, "inv/I6") || starts(c, "cap/") || starts(c, "drain/allocation") || starts(c, "alloc/size-mismatch"),
         "C09" => starts(c, "iter/") || starts(c, "iterlen/") || (functional && ["Iter", "IntoIter", "SetIter", "TIter"].contains(&k)),
-        "C10" => (starts(c, "inv/I6") && ["Retain", "ExtractIf", "Drain"].contains(&k)) || starts(c, "retain/") || starts(c, "extract/") || starts(c, "drain/") || (functional && ["Retain", "ExtractIf", "Drain"].contains(&k)),
+        "C10" => ((starts(c, "inv/I6") || starts(c, "iterlen/")) && ["Retain", "ExtractIf", "Drain"].contains(&k)) || starts(c, "retain/") || starts(c, "extract/") || starts(c, "drain/") || (functional && ["Retain", "ExtractIf", "Drain"].contains(&k)),
         "C11" => starts(c, "clone/") || starts(c, "eq/") || (["CloneTo", "CloneFrom"].contains(&k) && (starts(c, "ledger/") || starts(c, "inv/"))) || (functional && ["CloneTo", "CloneFrom", "EqSlots"].contains(&k)),
         "C12" => starts(c, "tryreserve/") || starts(c, "alloc/invalid-layout") || (k == "TryReserve" && starts(c, "alloc/over-reservation")) || (k == "TryReserve" && (functional || starts(c, "ledger/") || starts(c, "alloc/") || starts(c, "inv/"))),
         "C13" => starts(c, "churn/") || starts(c, "inv/I4") || starts(c, "inv/I6") || starts(c, "hang/") || starts(c, "diverge/"),
